@@ -706,6 +706,7 @@ def run(ctx):
         "_h5_legacy_load_field reads (p1, p2, n, dim, array + json side-car)",
         "vdim_mapping is not compared (not listed by the property, N3)",
     ]
+    core.df_stage(ctx, df)   # mixed histories (spec/DF.tla): the clauses that come from this property's text
     return core.finish(ctx, rule=RULE, extra={"pool_float": [repr(v) for v in POOLF], "pool_int": POOLI})
 
 
